@@ -172,9 +172,15 @@ structure Cfg where
   /-- a registered lookup indexes this key (namespace plugin registered, and the policy of the
       parents indexes the key: `.NAME` always, `EDIF.identifier` under the EDIF policy) -/
   indexed : Bool
-  /-- the index compares case-insensitively (`EDIF.identifier` under the EDIF policy) -/
+  /-- the key is one the documentation compares case-insensitively (`EDIF.identifier` of elements
+      under the EDIF policy); the code does so only through the index (`indexed && ci`) -/
   ci : Bool
 deriving Repr
+
+/-- how the direct stage compares an absolute pattern: ignoring case only where the index answers -/
+def Cfg.direct (c : Cfg) : Cfg := { c with ci := c.indexed && c.ci }
+/-- how every other code path compares: case-sensitively -/
+def Cfg.second (c : Cfg) : Cfg := { c with ci := false }
 
 def Cfg.abs (c : Cfg) (p : Str) : Bool := isAbsolute p c.isCase c.isRe
 def Cfg.vm (c : Cfg) (p v : Str) : Bool := valueMatches c.isCase c.isRe p v
